@@ -8,8 +8,9 @@ GNext ==
   /\ Len(hist) < Depth
   /\ \/ \E w \in {"primary", "replica", "any", "auto", "default"} : ~inTx /\ batch = <<>> /\ SetRole(w) /\ H([op |-> "set_role", arg |-> w, kinds |-> <<>>])
      \/ \E s \in Shapes : Query(s) /\ H([op |-> "query", arg |-> "", kinds |-> SeqOf(s)])
-     \/ \E s \in Shapes : batch = <<>> /\ n < MaxMsgs /\ n' = n + 1
-           /\ H([op |-> "batch", arg |-> "", kinds |-> SeqOf(s)])
+     \* a Parse..Sync batch; delivery "flush": the client sends Flush after the last message and Sync afterwards
+     \/ \E s \in Shapes, d \in {"", "flush"} : batch = <<>> /\ n < MaxMsgs /\ n' = n + 1
+           /\ H([op |-> "batch", arg |-> d, kinds |-> SeqOf(s)])
            /\ UNCHANGED <<roleSel, inTx, verdict, batch, fwd, replies>>
      \/ Begin /\ H([op |-> "begin", arg |-> "", kinds |-> <<>>])
      \/ Commit /\ H([op |-> "commit", arg |-> "", kinds |-> <<>>])
